@@ -407,7 +407,7 @@ def hardening_events(ctx, quick):
             ev.append({"op": "SetImage", "name": name, "k": k, "S": jS, "form": "interleaved lazy consumption", "res": got})
     # -- (d) equivariance on longer permutations, with history: objects are searched with before they are
     #        transformed, images are transformed again, and the originals are asked again afterwards
-    for _ in range(70 * scale):
+    for it_ in range(70 * scale):
         q = special_perm(rnd, rnd.randint(6, 9))
         classical = rnd.random() < 0.5
         k = rnd.choice([3, 4, 4, 5]) if classical else rnd.choice([2, 3, 3, 4])
@@ -426,6 +426,24 @@ def hardening_events(ctx, quick):
             trail.append("%s(%d)" % (name, kk) if name == "rotate" else name)
             ev.append(dict(base, before=c0, after=curQ.contains(curM), trail=list(trail)))
             ev.append(dict(base, before=Q.contains(M), after=curQ.contains(curM), trail=list(trail) + ["asked again"]))
+        if not classical and it_ % 2 == 0:
+            # the same question with the pattern written as a bivincular / vincular / covincular object (adjacent positions X,
+            # adjacent values Y); its images are plain mesh patterns
+            from permuta.patterns.bivincularpatt import BivincularPatt, CovincularPatt, VincularPatt
+            X = sorted(rnd.sample(range(k + 1), rnd.randint(0, 2)))
+            Y = sorted(rnd.sample(range(k + 1), rnd.randint(0, 2)))
+            kind = rnd.randrange(3)
+            if kind == 1:
+                Y = []
+            elif kind == 2:
+                X = []
+            B = (BivincularPatt(Perm(p), X, Y), VincularPatt(Perm(p), X), CovincularPatt(Perm(p), Y))[kind]
+            RB = sorted(B.shading)
+            baseB = {"op": "Equiv", "p": list(p), "R": [list(c) for c in RB], "q": list(q)}
+            for name in rnd.sample(names_both, 3):
+                kk = rnd.randint(-3, 5)
+                ev.append(dict(baseB, before=Q.contains(B), after=apply_obj(Q, name, kk).contains(apply_obj(B, name, kk)),
+                               trail=["%s as %s" % (name, type(B).__name__)]))
         if classical:                                    # the images of a used object, as patterns of its own images
             for img in M.all_syms():
                 ev.append({"op": "Equiv", "p": list(img), "R": [], "q": list(img), "before": img.contains(img), "after": img in img})
